@@ -101,10 +101,10 @@ theorem C14_invalid_pattern_rejected (valid : String → Bool) (before after : L
 
 /-- `transformOn` only matters for an `on`/`nativeOn` attribute: every other attribute is handled identically. -/
 theorem C14_transformOn_only_on (o : Opts) (b : Bool) (isComp : Bool) (nameN valueN : Node) (as : List String)
-    (acc : AttrAcc) (st : St) (s : String)
+    (lw : Option Node) (acc : AttrAcc) (st : St) (s : String)
     (hname : attrNameOf nameN = .plain s) (h1 : s ≠ "on") (h2 : s ≠ "nativeOn") :
-    attrStep { o with transformOn := b } isComp (.mk .jsxAttr as [nameN, valueN]) acc st
-      = attrStep o isComp (.mk .jsxAttr as [nameN, valueN]) acc st := by
+    attrStep { o with transformOn := b } isComp (.mk .jsxAttr as [nameN, valueN]) lw acc st
+      = attrStep o isComp (.mk .jsxAttr as [nameN, valueN]) lw acc st := by
   have hb : ∀ t : Bool, (t && (s == "on" || s == "nativeOn")) = false := by
     intro t; simp [h1, h2]
   unfold attrStep
@@ -115,8 +115,8 @@ theorem C14_transformOn_only_on (o : Opts) (b : Bool) (isComp : Bool) (nameN val
 
 /-- `transformOn` never matters for a spread. -/
 theorem C14_transformOn_spread (o : Opts) (b : Bool) (isComp : Bool) (e : Node) (as : List String) (acc : AttrAcc) (st : St) :
-    attrStep { o with transformOn := b } isComp (.mk .spreadElement as [e]) acc st
-      = attrStep o isComp (.mk .spreadElement as [e]) acc st := rfl
+    attrStep { o with transformOn := b } isComp (.mk .spreadElement as [e]) none acc st
+      = attrStep o isComp (.mk .spreadElement as [e]) none acc st := rfl
 
 /-- `enableObjectSlots` only matters when the sole child is an identifier or a call. -/
 theorem C14_objectSlots_only_sole_ident_or_call (o : Opts) (b : Bool) (elems : List Node) (isComp : Bool)
